@@ -81,13 +81,13 @@ def run(prop, tier, replay):
         dm = design(work, tier)
         jobs = []
         if prop == "C20":
-            nsh = 8
+            nsh = 8 if tier == "quick" else 16
             for i in range(nsh):
                 args = ["-mode", "perm", "-tier", tier, "-shard", str(i), "-nshards", str(nsh), "-seed", str(vf.seed() * 31 + i)]
 
                 def rec_(path, args=args):
                     vf.run_recorder([bins["rec-tuner"]] + args + ["-out", path], timeout=3000)
-                jobs.append(dict(name="C20-perm-%d" % i, record=rec_, args=args))
+                jobs.append(dict(name="C20-perm-%d" % i, record=rec_, args=args, heap="1g" if tier == "quick" else "3g"))
             for i in range(2 if tier == "quick" else 8):
                 args = ["-mode", "epoch", "-tier", tier, "-seed", str(vf.seed() * 131 + i)]
 
@@ -98,7 +98,7 @@ def run(prop, tier, replay):
                 jobs.append(dict(name="C20-epoch-%d" % i, record=rec2, args=args))
             res = tc.run_shards(work, "TunerTrace", jobs, timeout=6000)
             return finish(prop, tier, res, dm, t0, "model_checking",
-                          "every call of NewChunker/Batches/Chunks/Open/Read on generated data files (all line counts 1..40(200), powers of two +-1, blank lines, 100k+ line multi-batch files, a 36 MB big-line file) and shuffle permutations for all n <= 3000 (20000)",
+                          "every call of NewChunker/Batches/Chunks/Open/Read on generated data files (all line counts 1..40(200), powers of two +-1, blank lines, 100k+ line multi-batch files, a 36 MB big-line file) and shuffle permutations for all n <= 3000 (8000)",
                           {"design_model": "Tuner.tla: 4-round unbalanced Feistel with arbitrary round functions is a bijection for all widths <= %d; cycle walking is a permutation for all n; 3 rounds are not (necessity); batches/chunks partition for all n <= %d" % ((5, 14) if tier == "quick" else (6, 24))})
         # C19
         nf = 6000 if tier == "quick" else 60000
